@@ -59,6 +59,9 @@ FStep(st, rule) ==
                          ELSE [nx EXCEPT !.scope = @ + 1, !.inscope = TRUE])
     [] s.k = "ends"  -> [nx EXCEPT !.inscope = FALSE]
     [] s.k = "data"  -> [nx EXCEPT !.pc = @ + s.sz]
+    \* a mode directive (.msp430_cpu4, .code, .list) places nothing; what it switches holds from there on in the pass that
+    \* reads it, so the statements in front of it are the same in both passes
+    [] s.k = "mode"  -> nx
 
 RECURSIVE FRun(_, _)
 FRun(st, rule) ==
